@@ -194,6 +194,11 @@ class Stats:
         self.rendered = {}  # human-readable description of the run
         self.steps = 0  # scheduler steps / simulated operations
         self.notes = []
+        self.maxima = {}  # name -> float, aggregated with max()
+
+    def maximum(self, name, v):
+        if v > self.maxima.get(name, float("-inf")):
+            self.maxima[name] = float(v)
 
     def fault(self, kind, k=1):
         self.faults[kind] = self.faults.get(kind, 0) + k
